@@ -492,3 +492,22 @@ def r11(rr, repo):
     for n in comps:
         one = len(n.generators) == 1 and not n.generators[0].ifs
         rr.ob('the facet builder converts list fields element by element (same length)', one, lm, n, witness=U(n)[:80], key='facet-lists-elementwise')
+
+
+@rule('C16.R12', "a client records through the provider IT built: the exporter that carries this client's allow-list hangs on the readers of the MeterProvider made in the constructor, and opentelemetry's "
+                 "set_meter_provider() takes effect once per process - the module-level get_meter() answers with the FIRST provider ever set, so a second client that takes its meters from it has its metrics "
+                 "exported under the first client's allow-list (a lock-down client's metric leaves through another client's exporter). Every meter the client keeps comes from <its provider>.get_meter(..)")
+def r12(rr, repo):
+    cm, ctor = repo.find(f'{CL}::OpenTelemetryClient.__init__')
+    prov = [n for n in walk_scope(ctor) if isinstance(n, ast.Assign) and isinstance(n.value, ast.Call) and U(n.value.func).split('.')[-1] == 'MeterProvider']
+    rr.floor('MeterProvider(..) constructions stored by the client', len(prov), 1, cm, ctor)
+    names = {U(t) for n in prov for t in n.targets}
+    # the readers of that provider include the one that wraps the lineage exporter
+    exp = [n for n in walk_scope(ctor) if isinstance(n, ast.Assign) and isinstance(n.value, ast.Call) and U(n.value.func).endswith('OTelLineageExporter')]
+    meters = [n for n in walk_scope(ctor) if isinstance(n, ast.Assign) and isinstance(n.value, ast.Call) and U(n.value.func).split('.')[-1] == 'get_meter' and any(U(t).startswith('self.') for t in n.targets)]
+    rr.floor('meters the client keeps (self.<..> = ..get_meter(..))', len(meters), 2, cm, ctor)
+    for n in meters:
+        f = n.value.func
+        own = isinstance(f, ast.Attribute) and U(f.value) in names
+        rr.ob("the meter is taken from the client's own provider", own, cm, n, witness=f'{U(n.targets[0])} = {U(n.value)[:70]}; own provider: {sorted(names)}', key=f'meter-of-own-provider|{U(n.targets[0])}')
+    rr.sites += len(meters) + len(exp)
